@@ -138,7 +138,7 @@ func init() {
 		Run: func(c *Ctx) {
 			defer cleanupTemp()
 			n := c.N(500, 20000)
-			sources := []string{"", "seeker", "fs", "iofs", "tpl", "flaky"}
+			sources := []string{"", "seeker", "fs", "iofs", "tpl", "flaky", "htmltpl", "embedfs"}
 			for i := 0; i < n; i++ {
 				r := c.Rng
 				spc := genSpec(r, genOpts{maxParts: 2, maxFiles: 3, noFails: true, smallContent: true})
@@ -146,7 +146,7 @@ func init() {
 				nontrivial := false
 				for j := range spc.Files {
 					spc.Files[j].Source = sources[r.Intn(len(sources))]
-					if spc.Files[j].Source == "tpl" {
+					if spc.Files[j].Source == "tpl" || spc.Files[j].Source == "htmltpl" {
 						// templates carry text: keep the content valid UTF-8 free of template actions
 						spc.Files[j].Content = []byte(strings.ToValidUTF8(strings.ReplaceAll(string(spc.Files[j].Content), "{{", "{ {"), "?"))
 					}
